@@ -135,6 +135,9 @@ def run(ctx):
                  ('R-ATTRCARRY', 'variable attributes copied to the result variable'),
                  ('R-TFLAGKEEP', 'IOAPI wrapper keeps the time flags selected by the base slicing')):
         ctx.rule(r, d)
+    from .. import lints as _l
+    ctx.rule('R-FUZZYDIM', "slice_dim: a request for dimension D is extended only to the companion dimensions named 'D<digits>'")
+    ctx.floor('companion conditions judged by R-FUZZYDIM', _l.fuzzy_companions(ctx, 'R-FUZZYDIM', 'core/_functions.py', 'slice_dim'), 1)
     mod = ctx.src.mod(RP)
     fn = mod.func(Q)
     where = 'src/PseudoNetCDF/%s %s' % (RP, Q)
